@@ -325,7 +325,7 @@ def _layout(ctx, sws):
                         if not tc_ok and all_te:
                             # without a flag: the patch is out of reach unless a record was dropped, and cannot be avoided once one was
                             rets = set(cfg.return_blocks())
-                            tc_ok = bb not in cfg.reachable_avoiding_edges(0, set(all_te)) and \
+                            tc_ok = bb not in cfg.reachable_avoiding_edges(0, set(all_te) | set(flag_true)) and \
                                 all(not (rets & cfg.reachable_from(tgt, blocked=(bb,))) for _, tgt in all_te)
     ctx.check(tc_ok, "R4", "tc-bit-set-under-truncation-flag", ctx.where(b), "TC (0x02 of octet 2) must be OR-ed into the header exactly when records were dropped")
     # patches
@@ -373,7 +373,7 @@ def _layout(ctx, sws):
                       how, a, e, "grows by one octet per patch and every later field shifts" if (a is not None and e is not None and e - a == 1) else "is corrupted"))
         ctx.check(sect is not None and want_off.get(sect) == a, "R2", "patch@%s<-count(%s)" % (a, sect), where,
                   "the count of section `%s` belongs at offset %s" % (sect, want_off.get(sect)))
-        ctx.check(edge_dominated(cfg, flag_true, bb) or (bool(all_te) and bb not in cfg.reachable_avoiding_edges(0, set(all_te))), "R2",
+        ctx.check(edge_dominated(cfg, flag_true, bb) or (bool(all_te) and bb not in cfg.reachable_avoiding_edges(0, set(all_te) | set(flag_true))), "R2",
                   "patch@%s:only-when-truncated" % a, where, "")
     ctx.floor("R2", "header count patches", n, 3)
 
